@@ -31,6 +31,9 @@ Fixpoint gval_eqb (a b : gval) {struct a} : bool :=
          | _, _ => false
          end) x y
   | VOther x, VOther y => String.eqb x y
+  | VTag n x, VTag m y => Z.eqb n m && gval_eqb x y
+  | VSimple x, VSimple y => Z.eqb x y
+  | VBig x, VBig y => Z.eqb x y
   | _, _ => false
   end.
 
